@@ -69,6 +69,7 @@ const (
 
 // State of one path execution.
 type interpreter struct {
+	ptrIDs             map[*value]uint64      // maphash.Comparable: pointers numbered by first use
 	prog               *ssa.Program           // the SSA program
 	globals            map[*ssa.Global]*value // addresses of global variables, materialised lazily
 	written            map[*ssa.Global]bool   // globals stored to on this path
